@@ -133,6 +133,10 @@ func (p *workerPool) Submit(ctx context.Context, task *Task) {
 	select {
 	case <-ctx.Done():
 		p.statistics.TasksRejected.Incr()
+		// NOTE: task is dropped, need tell the submitter(e.g. stage of query pipeline is waiting the task completed)
+		if task.panicHandle != nil {
+			task.panicHandle(ctx.Err())
+		}
 		return
 	case p.tasks <- task:
 	}
